@@ -377,6 +377,22 @@ def extra_rules(ctx):
                      f"if np.min({mat_s}.score_matrix()) < 0 else (np.iinfo(np.int32).min - (min(gap_penalty) if {aff_s} else gap_penalty))"),
            "the sentinel must stay above INT32_MIN after a gap penalty and a negative substitution score have BOTH been added (a band-edge "
            "cell holds neg_inf + penalty and the next diagonal step adds a score to it); the code computes " + ast.unparse(nv)[:200], ab.lineno)
+    # ---- ... and that head-room is for ONE step.  The affine recurrence adds a penalty to entries of the gap tables that it wrote itself
+    # (`g1_table[i, j-1] + gap_ext` goes into `g1_table[i, j]`): an entry that descends from the sentinel falls by one penalty per step along
+    # the band, so the stored value needs a lower clamp (max(.., sentinel)) - or the head-room has to grow with the number of steps
+    fa = ctx.src(BD).func("_fill_align_table_affine")
+    stored_tabs = {t.value.id for st in ast.walk(fa) if isinstance(st, ast.Assign) for t in st.targets
+                   if isinstance(t, ast.Subscript) and isinstance(t.value, ast.Name)}
+    self_fed = sorted({x.left.value.id for x in ast.walk(fa) if isinstance(x, ast.BinOp) and isinstance(x.op, ast.Add) and isinstance(x.left, ast.Subscript)
+                       and isinstance(x.left.value, ast.Name) and x.left.value.id in stored_tabs and x.left.value.id.startswith("g")
+                       and isinstance(x.right, ast.Name) and x.right.id.startswith("gap")})
+    ctx.need(bool(self_fed), "gap-table recurrence of _fill_align_table_affine (banded)")
+    clamps = [c for c in ast.walk(fa) if isinstance(c, ast.Call) and (call_name(c) or "").split(".")[-1] in ("max", "_max", "maximum")
+              and any(isinstance(a, ast.Name) and ("inf" in a.id or "sentinel" in a.id or "min" in a.id.lower()) for a in c.args)]
+    ctx.ob("R3.sentinel-not-accumulated", BD, "_fill_align_table_affine", f"{self_fed}: entry + gap penalty stored back into the same table",
+           bool(clamps),
+           "gap-table entries that descend from the out-of-band sentinel lose one gap penalty per step and are never clamped: the head-room of the "
+           "sentinel (one penalty, one score) is used up after two steps and the int32 wraps to a huge positive score", fa.lineno)
     # ---- gapped seed extension: the upstream part reverses code[start - 1::-1] of BOTH sequences: it is skipped when either start is 0
     # (start - 1 = -1 would slice the whole reversed sequence)
     lg = ctx.src(LG).func("align_local_gapped")
@@ -427,6 +443,51 @@ def extra_rules(ctx):
             ctx.ob("R3.pruned-cell-not-extended", LG, q, f"{v} += substitution score only if {v} != 0", ok,
                    f"the diagonal predecessor `{v}` is 0 when that cell was pruned: the substitution score may only be added to a "
                    "reached cell (guard `!= 0`), otherwise alignments start away from the seed", (adds[0].lineno if adds else f.lineno))
+    # ---- gapped seed extension: a neighbour cell is read exactly where it exists - `T[i-1, j]` under `i != 0` (and nothing about j: the first
+    # column HAS upper neighbours), `T[i, j-1]` under `j != 0`, `T[i-1, j-1]` under both
+    from ..facts import conjuncts as _conj
+    n_nb = 0
+    for q in ("_fill_align_table", "_fill_align_table_affine"):
+        f = ctx.src(LG).func(q)
+        par = {}
+        for p_ in ast.walk(f):
+            for ch_ in ast.iter_child_nodes(p_):
+                par[id(ch_)] = p_
+        for sub in ast.walk(f):
+            if not (isinstance(sub, ast.Subscript) and isinstance(sub.ctx, ast.Load) and isinstance(sub.slice, ast.Tuple) and len(sub.slice.elts) == 2
+                    and isinstance(sub.value, ast.Name) and sub.value.id.endswith("_table")):
+                continue
+            dec = {e.left.id for e in sub.slice.elts if isinstance(e, ast.BinOp) and isinstance(e.op, ast.Sub) and isinstance(e.left, ast.Name)
+                   and isinstance(e.right, ast.Constant) and e.right.value == 1}
+            idx_names = {e.id for e in sub.slice.elts if isinstance(e, ast.Name)} | dec
+            if not dec or not idx_names <= {"i", "j"}:
+                continue
+            guards_ = set()
+            cur = sub
+            while id(cur) in par:
+                up = par[id(cur)]
+                if isinstance(up, ast.If) and any(cur is b_ or any(cur is x for x in ast.walk(b_)) for b_ in up.body):
+                    for c_ in _conj(up.test):
+                        if isinstance(c_, ast.Compare) and len(c_.ops) == 1 and isinstance(c_.ops[0], ast.NotEq) and isinstance(c_.left, ast.Name) \
+                                and isinstance(c_.comparators[0], ast.Constant) and c_.comparators[0].value == 0 and c_.left.id in ("i", "j"):
+                            guards_.add(c_.left.id)
+                cur = up
+            n_nb += 1
+            ctx.ob("R3.neighbour-read-where-it-exists", LG, q, sub, guards_ == dec,
+                   f"`{ast.unparse(sub)}` is read under the test(s) {sorted(guards_)} != 0 but steps back in {sorted(dec)}: "
+                   + ("the neighbour does not exist at the border" if dec - guards_ else "an existing neighbour (first row / first column next to the seed) is never used, "
+                      "so an extension cannot begin with a gap there and the optimum is missed"), sub.lineno)
+    ctx.floor("neighbour-reads", n_nb, 8)
+    # ---- ungapped seed extension: the uint8 kernel takes uint8 buffers: it is chosen only when BOTH code arrays are uint8
+    lu_f = ctx.src(LU).func("align_local_ungapped")
+    flags_ = [st for st in ast.walk(lu_f) if isinstance(st, ast.Assign) and len(st.targets) == 1 and isinstance(st.targets[0], ast.Name)
+              and ast.unparse(st.value).count("uint8") >= 2 and "dtype" in ast.unparse(st.value)]
+    ctx.need(len(flags_) == 1, "the both-uint8 test of align_local_ungapped")
+    v_ = flags_[0].value
+    both_ = isinstance(v_, ast.BinOp) and isinstance(v_.op, ast.BitAnd) or isinstance(v_, ast.BoolOp) and isinstance(v_.op, ast.And)
+    ctx.ob("R6.uint8-kernel-needs-both", LU, "align_local_ungapped", flags_[0], both_ and "code1" in ast.unparse(v_) and "code2" in ast.unparse(v_),
+           "the uint8 kernel is typed for two uint8 buffers: chosen when only one of the code arrays is uint8 it refuses the other "
+           "(ValueError: Buffer dtype mismatch) instead of aligning", flags_[0].lineno)
     # ---- every heuristic aligner checks both alphabets against the matrix before it indexes it
     from ..lints import alphabets_fit_matrix
     for rel_, q_ in ((BD, "align_banded"), (LG, "align_local_gapped"), (LU, "align_local_ungapped")):
